@@ -223,8 +223,12 @@ def gen_history(rng, kind, shuffle, script, tape, max_ops, episodes, p_bad=0.15,
     return sess
 
 
-def gen_script(rng, max_agents=5, max_t=8):
+def gen_script(rng, max_agents=5, max_t=8, allow_big=False):
     n = rng.randint(1, max_agents)
+    if allow_big and rng.random() < 0.05:
+        # what the small scopes never reach: eleven and more agents (two-digit indices), late finishes
+        n = rng.randint(11, 14)
+        max_t = max(max_t, 30)
     learning = [rng.random() < 0.75 for _ in range(n)]
     if not any(learning):
         learning[rng.randrange(n)] = True
